@@ -1,4 +1,4 @@
-#!/usr/bin/env python3
+#!/venv/bin/python
 """Regenerates every lean/AasVerif/Gen/*.lean from /repo's current working tree (what each check does in stage E)."""
 import importlib, pathlib, sys
 sys.path.insert(0, str(pathlib.Path(__file__).resolve().parent.parent))
